@@ -38,25 +38,35 @@ _built = {}
 
 
 def build_vh(tags="verif", race=False):
-    """Build the Go harness against /repo's current working tree."""
+    """Build the Go harness against the repository's current working tree (VERIF_REPO, default /repo).
+    For any other tree (mutation testing in a scratch worktree) the harness sources are copied to a
+    private directory so that the shared harness/go.mod keeps pointing at /repo."""
     key = (tags, race)
     if key in _built:
         return _built[key]
     os.makedirs(BIN, exist_ok=True)
+    hdir = os.path.join(ROOT, "harness")
+    suffix = ""
+    if os.path.realpath(REPO) != "/repo":
+        suffix = "-" + hashlib.sha1(os.path.realpath(REPO).encode()).hexdigest()[:8]
+        hcopy = os.path.join(WORK, "harness" + suffix)
+        shutil.rmtree(hcopy, ignore_errors=True)
+        shutil.copytree(hdir, hcopy, ignore=shutil.ignore_patterns("go.mod", "go.sum"))
+        hdir = hcopy
     r = subprocess.run([sys.executable, os.path.join(ROOT, "tools", "genmod.py")], capture_output=True, text=True,
-                       env=dict(os.environ, VERIF_REPO=REPO))
+                       env=dict(os.environ, VERIF_REPO=REPO, VERIF_HARNESS_DIR=hdir))
     if r.returncode != 0:
         raise Infra("genmod failed: " + r.stderr)
-    out = os.path.join(BIN, "vh" + ("-race" if race else ""))
+    out = os.path.join(BIN, "vh" + suffix + ("-race" if race else ""))
     cmd = ["go", "build", "-tags", tags, "-o", out]
     if race:
         cmd.append("-race")
     cmd.append("./cmd/vh")
     t0 = time.time()
-    r = subprocess.run(cmd, cwd=os.path.join(ROOT, "harness"), env=goenv(), capture_output=True, text=True)
+    r = subprocess.run(cmd, cwd=hdir, env=goenv(), capture_output=True, text=True)
     if r.returncode != 0:
         raise Infra("harness build failed:\n" + r.stdout + r.stderr)
-    log(f"[build] vh built in {time.time()-t0:.1f}s")
+    log(f"[build] {os.path.basename(out)} built against {REPO} in {time.time()-t0:.1f}s")
     _built[key] = out
     return out
 
@@ -218,7 +228,15 @@ def run_vh_parallel(vh, args, items, nproc=None, timeout=1800, env=None):
                     out.append(json.loads(line))
                 except Exception:
                     pass
-        return p.returncode, out, p.stderr[-4000:]
+        err = p.stderr[-4000:]
+        if p.returncode not in (0, 1):
+            os.makedirs(WORK, exist_ok=True)
+            fp = os.path.join(WORK, "failed-chunk-%d-%d.ndjson" % (os.getpid(), id(chunk) % 100000))
+            with open(fp, "w") as f:
+                for c in chunk:
+                    f.write(json.dumps(c) + "\n")
+            err = f"[input of the failed harness process saved to {fp}; {len(out)} results before it died]\n" + err
+        return p.returncode, out, err
 
     with cf.ThreadPoolExecutor(nproc) as ex:
         for rc, out, err in ex.map(work, chunks):
